@@ -96,6 +96,9 @@ struct World<'a> {
     rt_fillers: Vec<Vec<usize>>,
     /// per node: filler peers that left its routing table
     retired: Vec<Vec<PeerId>>,
+    /// per node: the peers it sent a replication list of its own to (collected during the final clean rounds)
+    advertised_to: Vec<BTreeSet<PeerId>>,
+    held_from_the_start: Vec<bool>,
 }
 
 pub fn execute(plan: &Plan, entropy: u64) -> RunReport {
@@ -144,6 +147,8 @@ pub fn execute(plan: &Plan, entropy: u64) -> RunReport {
             cut: BTreeSet::new(),
             rt_fillers: vec![(0..(if plan.fillers == 0 { 2 } else { plan.fillers as usize })).collect(); plan.n_nodes as usize],
             retired: vec![vec![]; plan.n_nodes as usize],
+            advertised_to: vec![BTreeSet::new(); plan.n_nodes as usize],
+            held_from_the_start: vec![],
         };
         w.run().await;
         nhooks::gates_uninstall();
@@ -204,6 +209,30 @@ impl<'a> World<'a> {
         peers.iter().take(ant_protocol::CLOSE_GROUP_SIZE).map(|(_, p)| *p).collect()
     }
 
+    /// "A node advertises every record it holds to its replication targets": over the clean rounds at the end (ranges
+    /// and routing tables no longer change, no message is lost) every node that holds records has sent a replication
+    /// list of its own to every one of its replication targets, nodes and filler peers alike.
+    fn check_every_target_was_advertised_to(&mut self) {
+        for a in 0..self.hosts.len() {
+            if self.hosts[a].store().verif_index().is_empty() || !self.held_from_the_start.get(a).copied().unwrap_or(false) {
+                continue;
+            }
+            let targets = self.replication_targets(a);
+            let missing: Vec<PeerId> = targets.iter().filter(|t| !self.advertised_to[a].contains(*t)).copied().collect();
+            if let Some(m) = missing.first() {
+                let what = if self.node_of(m).is_some() { "node" } else { "filler_peer" };
+                self.rep.violate(
+                    "C09",
+                    "replication_target_never_advertised_to",
+                    &[("target", what.into())],
+                    format!("n{a} holds {} records and sent its replication list to {} peers during the clean rounds, but never to {} of its {} replication targets (first: a {what})", self.hosts[a].store().verif_index().len(), self.advertised_to[a].len(), missing.len(), targets.len()),
+                );
+                return;
+            }
+            self.rep.probe("every_replication_target_advertised_to");
+        }
+    }
+
     fn all_nodes_are_mutual_targets(&self) -> bool {
         (0..self.hosts.len()).all(|a| {
             let t = self.replication_targets(a);
@@ -247,6 +276,11 @@ impl<'a> World<'a> {
                     let held: Vec<(NetworkAddress, RecordType)> = self.hosts[i].store().verif_record_addresses().into_iter().collect();
                     let to = self.node_of(&o.to);
                     // the replication-list oracle is evaluated at the moment the list is sent
+                    if let Request::Cmd(Cmd::Replicate { holder, .. }) = &o.req {
+                        if holder.as_peer_id() == Some(self.hosts[i].peer) {
+                            self.advertised_to[i].insert(o.to);
+                        }
+                    }
                     if let Request::Cmd(Cmd::Replicate { holder, keys }) = &o.req {
                         if holder.as_peer_id() == Some(self.hosts[i].peer) && to.is_some() {
                             let keys = keys.clone();
@@ -871,14 +905,22 @@ impl<'a> World<'a> {
             *a = false;
         }
         let mut converged_at = None;
+        for a in self.advertised_to.iter_mut() {
+            a.clear();
+        }
+        // the advertise-to-every-target rule applies to nodes that hold records throughout the clean rounds
+        self.held_from_the_start = (0..self.hosts.len()).map(|a| !self.hosts[a].store().verif_index().is_empty()).collect();
         if !self.all_nodes_are_mutual_targets() {
             // some node is not among another node's replication targets (bigger routing tables): that pair does not
             // exchange lists, nothing obliges the replicas to converge
-            for r in 0..2 {
+            for r in 0..3 {
                 self.round(&format!("final {}", r + 1)).await;
             }
             self.rep.probe("not_all_nodes_are_mutual_replication_targets");
             self.rep.log("convergence not required: not every node is a replication target of every other node");
+            if self.rep.violations.is_empty() {
+                self.check_every_target_was_advertised_to();
+            }
             return;
         }
         if self.plan.fillers != 0 && self.ranges.iter().any(|r| r.is_some()) {
@@ -889,9 +931,19 @@ impl<'a> World<'a> {
             if !self.rep.violations.is_empty() {
                 return;
             }
-            if self.converged().is_empty() {
+            if converged_at.is_none() && self.converged().is_empty() {
                 converged_at = Some(r + 1);
+            }
+            // a peer is sent a list at most every 45 s and the rounds are 35 s apart: three rounds give every
+            // replication target its turn
+            if converged_at.is_some() && r >= 2 {
                 break;
+            }
+        }
+        if self.rep.violations.is_empty() {
+            self.check_every_target_was_advertised_to();
+            if !self.rep.violations.is_empty() {
+                return;
             }
         }
         match converged_at {
